@@ -274,6 +274,7 @@ func ownershipRules(c *Ctx) {
 	checkInputRetain(p, c.Run.Rule("INPUT-retain", "no exported function keeps a caller's byte slice in an object that outlives the call (directly or through a callee)", 80), false)
 	checkResultDisjoint(p, c.Run.Rule("RESULT-disjoint", "two byte-slice results of one exported function never share storage", 1), false)
 	checkReturnGlobal(p, c.Run.Rule("RETURN-global", "no exported function hands out a pointer or slice into a package-level variable (constants and tables stay out of the callers' reach)", 100), false)
+	checkReturnInterior(p, c.Run.Rule("RETURN-interior", "no exported function returns a pointer into the object a pointer parameter designates (returning the receiver itself is fine)", 60), false)
 }
 
 // globalStoreRule: GLOBAL-store (the rule of C18) in one configuration: nothing writes memory
